@@ -67,7 +67,16 @@ fn serialize_object(
     bytes.push(markers::OBJECT_MARKER);
 
     for (name, value) in properties {
-        // TODO: Add check that property name isn't greater than a u16
+        // An empty name can't be told apart from the end of the object, and the name length
+        // has to fit into a u16
+        if name.len() == 0 {
+            return Err(Amf0SerializationError::EmptyObjectPropertyName);
+        }
+
+        if name.len() > (u16::max_value() as usize) {
+            return Err(Amf0SerializationError::NormalStringTooLong);
+        }
+
         bytes.write_u16::<BigEndian>(name.len() as u16)?;
         bytes.extend(name.as_bytes());
         serialize_value(&value, bytes)?;
